@@ -1,4 +1,5 @@
 import CalVerif.Lemmas.SharedFormula
+import CalVerif.Lemmas.SharedEvents
 /-! # C15 — XLSX shared formulas expand to the translated formula of each member cell
 
     Model: `Model/SharedFormula.lean` (the Rust code after the fixes D11, D12, D13 and the map-by-`si` repair);
@@ -662,6 +663,125 @@ theorem specOut_mem (cells before : List CellIn) (p : Nat × Nat) (v : List Char
         right
         exact (ih (before ++ [x])).mpr ⟨ys, c, b, e2, hp, by simpa [List.append_assoc] using hv, hne⟩
 
+/-! ### the same on the XML events of the worksheet part
+
+    `XlsxFormula.readFormulas` is the event-level model of `next_formula` (C01's event model, C14's
+    formula reader, extended with the shared-formula arms); `SharedSheet.render` writes a logical sheet
+    with shared groups as the event list of `<worksheet><sheetData><row><c><f t="shared" …>`. -/
+
+open SharedSheet in
+/-- what the reader must report for every `<c>` of the sheet, in document order (UTF-8 text, empty for a
+    cell without formula), by the table-free description `specText` -/
+def specAll : List CellIn → List CellIn → List (Nat × Nat × XlsxCells.Bytes)
+  | _, [] => []
+  | before, c :: cs => (c.pos.1, c.pos.2, Utf8.utf8Encode (specText before c)) :: specAll (before ++ [c]) cs
+
+theorem specAll_append (before x y : List CellIn) :
+    specAll before (x ++ y) = specAll before x ++ specAll (before ++ x) y := by
+  induction x generalizing before with
+  | nil => simp [specAll]
+  | cons c cs ih => simp [specAll, ih, List.append_assoc]
+
+theorem specAll_length (before x : List CellIn) : (specAll before x).length = x.length := by
+  induction x generalizing before with
+  | nil => rfl
+  | cons c cs ih => simp [specAll, ih]
+
+theorem texts_spec (cells before : List CellIn) (t : Table) (hsi : ∀ c ∈ cells, hasSi c)
+    (hinv : ∀ si, t.lookup si = lastMaster before si) :
+    SharedSheet.texts t cells = specAll before cells := by
+  induction cells generalizing before t with
+  | nil => rfl
+  | cons c cs ih =>
+    obtain ⟨t', h1, h2⟩ := cellFormula_spec t before c (hsi c (by simp)) hinv
+    have hs : SharedSheet.stepCell t c = (t', specText before c) := by simp [SharedSheet.stepCell, h1]
+    simp only [SharedSheet.texts, specAll, hs]
+    rw [ih (before ++ [c]) t' (fun x hx => hsi x (by simp [hx])) h2]
+
+theorem toCells_hasSi (s : SharedSheet.SSheet) : ∀ c ∈ SharedSheet.toCells s, hasSi c := by
+  intro c hc
+  simp only [SharedSheet.toCells, SharedSheet.rowCells, List.mem_flatMap, List.mem_map] at hc
+  obtain ⟨row, _, cell, _, rfl⟩ := hc
+  intro text ref h
+  unfold SharedSheet.toCellIn at h
+  cases hf : cell.2.f <;> simp [hf] at h
+
+/-- **sheet_events_exact**: on the XML events of any well-formed rendered sheet with shared groups (any
+    shapes, any master positions, any `si` values and order, non-member cells, either element prefix)
+    the event-level model of `next_formula` reports, for every `<c>` in document order, exactly the text
+    the table-free description `specText` prescribes: own text for masters and plain formulas, the
+    translated master for members, nothing for the others. -/
+theorem sheet_events_exact (s : SharedSheet.SSheet) (p : Bool) (hwf : s.WF) :
+    XlsxFormula.readFormulas (SharedSheet.render s p) = .ok (specAll [] (SharedSheet.toCells s)) := by
+  rw [SharedSheet.readFormulas_render s p hwf, texts_spec _ [] [] (toCells_hasSi s) (fun _ => rfl)]
+
+theorem lastMaster_append_nodef (b l : List CellIn) (si : Nat) (h : ∀ x ∈ b, ¬ definesGroup x si) :
+    lastMaster (l ++ b) si = lastMaster l si := by
+  induction b generalizing l with
+  | nil => simp
+  | cons x xs ih =>
+    have e : l ++ x :: xs = (l ++ [x]) ++ xs := by simp
+    rw [e, ih (l ++ [x]) (fun y hy => h y (by simp [hy])), lastMaster_snoc]
+    have hx := h x (by simp)
+    obtain ⟨pos, f⟩ := x
+    cases f with
+    | none => rfl
+    | some q =>
+      obtain ⟨text, sh⟩ := q
+      cases sh with
+      | none => rfl
+      | some a =>
+        obtain ⟨osi, oref⟩ := a
+        cases osi with
+        | none => rfl
+        | some sj =>
+          cases oref with
+          | none => rfl
+          | some ref =>
+            simp only
+            by_cases hs : sj = si
+            · subst hs; exact absurd ⟨text, ref, rfl⟩ hx
+            · rw [if_neg hs]
+
+/-- **member_formula_events**: on the events of a rendered sheet containing shared groups, a follower
+    `c` of group `si` (its master `m` with text `render toks` and declared range `ref` comes earlier in
+    the document, no cell in between redefines `si`, `c` lies in `ref`) is reported with the master formula
+    translated by `c.pos − m.pos` — `replace_cell_names(master, Δ)`, which is `render (shift toks Δ)` for a
+    formula well-formed for that offset — at its place in the document order. -/
+theorem member_formula_events (s : SharedSheet.SSheet) (p : Bool) (hwf : s.WF)
+    (a b rest : List CellIn) (m c : CellIn) (toks : List Tok) (si : Nat) (ref : Rect) (own : List Char)
+    (hcells : SharedSheet.toCells s = a ++ m :: b ++ c :: rest)
+    (hm : m.f = some (render toks, some ⟨some si, some ref⟩))
+    (hb : ∀ x ∈ b, ¬ definesGroup x si)
+    (hc : c.f = some (own, some ⟨some si, none⟩))
+    (hin : ref.contains c.pos.1 c.pos.2 = true)
+    (hwfT : WF toks ((c.pos.1 : Int) - (m.pos.1 : Int), (c.pos.2 : Int) - (m.pos.2 : Int))) :
+    ∃ l1 l2, XlsxFormula.readFormulas (SharedSheet.render s p) =
+        .ok (l1 ++ (c.pos.1, c.pos.2, Utf8.utf8Encode
+              (render (shift toks ((c.pos.1 : Int) - (m.pos.1 : Int), (c.pos.2 : Int) - (m.pos.2 : Int))))) :: l2)
+      ∧ l1.length = a.length + 1 + b.length
+      ∧ replaceCellNames (render toks) ((c.pos.1 : Int) - (m.pos.1 : Int), (c.pos.2 : Int) - (m.pos.2 : Int))
+          = .ok (render (shift toks ((c.pos.1 : Int) - (m.pos.1 : Int), (c.pos.2 : Int) - (m.pos.2 : Int)))) := by
+  have htr := translate_correct toks _ hwfT
+  have hlm : lastMaster (a ++ m :: b) si = some ⟨render toks, ref, m.pos⟩ := by
+    have e : a ++ m :: b = (a ++ [m]) ++ b := by simp
+    rw [e, lastMaster_append_nodef b _ si hb, lastMaster_snoc, hm]
+    simp
+  have hspec : specText (a ++ m :: b) c
+      = render (shift toks ((c.pos.1 : Int) - (m.pos.1 : Int), (c.pos.2 : Int) - (m.pos.2 : Int))) := by
+    obtain ⟨cpos, cf⟩ := c
+    simp only at hc hin htr ⊢
+    subst hc
+    simp only [Rect.contains, Bool.and_eq_true, decide_eq_true_eq, ge_iff_le] at hin
+    obtain ⟨⟨⟨h1, h2⟩, h3⟩, h4⟩ := hin
+    simp only [specText, hlm, h1, h2, h3, h4, and_self, if_true, translate, htr]
+  refine ⟨specAll [] (a ++ m :: b), specAll ((a ++ m :: b) ++ [c]) rest, ?_, ?_, htr⟩
+  · rw [sheet_events_exact s p hwf, hcells]
+    have e : a ++ m :: b ++ c :: rest = (a ++ m :: b) ++ (c :: rest) := by simp
+    rw [e, specAll_append]
+    simp only [specAll, List.nil_append, hspec]
+  · rw [specAll_length]; simp; omega
+
 /-! ### non-vacuity: concrete instances meeting the hypotheses -/
 
 /-- `$A1+LOG10(A$1)&"é A1"+AB1!B2` is well-formed for the offset (1, 1) … -/
@@ -717,5 +837,31 @@ example :
   have e2 : render (shift toks (((c.pos.1 : Nat) : Int) - ((m.pos.1 : Nat) : Int), ((c.pos.2 : Nat) : Int) - ((m.pos.2 : Nat) : Int)))
       = "$A2+B$1".toList := by decide
   rw [e2] at this; exact this
+
+/-- the block `B1:C2` (master `B1` = `$A1+A$1`, `si = 7`) as XML events: the event-level reader reports
+    the four cells with the translated formulas -/
+def demoSheet : SharedSheet.SSheet :=
+  [(0, [(1, ⟨.master 7 ⟨0, 1, 1, 2⟩ "$A1+A$1".toList, true⟩), (2, ⟨.follower 7, true⟩)]),
+   (1, [(0, ⟨.plain "1+1".toList, false⟩), (1, ⟨.follower 7, true⟩), (2, ⟨.follower 7, false⟩)])]
+
+theorem demoSheet_wf : demoSheet.WF := by
+  refine ⟨by simp [demoSheet, XlsxSheet.Increasing], ?_, ?_⟩
+  · intro row hrow
+    simp only [demoSheet, List.mem_cons, List.not_mem_nil, or_false] at hrow
+    rcases hrow with rfl | rfl <;> simp [XlsxSheet.Increasing]
+  · intro row hrow c hc
+    simp only [demoSheet, List.mem_cons, List.not_mem_nil, or_false] at hrow
+    rcases hrow with rfl | rfl
+    · simp only [List.mem_cons, List.not_mem_nil, or_false] at hc
+      rcases hc with rfl | rfl <;> simp [SharedSheet.SCell.Ok]
+    · simp only [List.mem_cons, List.not_mem_nil, or_false] at hc
+      rcases hc with rfl | rfl | rfl <;> simp [SharedSheet.SCell.Ok]
+
+example : XlsxFormula.readFormulas (SharedSheet.render demoSheet true) = .ok
+    [(0, 1, Utf8.utf8Encode "$A1+A$1".toList), (0, 2, Utf8.utf8Encode "$A1+B$1".toList),
+     (1, 0, Utf8.utf8Encode "1+1".toList), (1, 1, Utf8.utf8Encode "$A2+A$1".toList),
+     (1, 2, Utf8.utf8Encode "$A2+B$1".toList)] := by
+  rw [sheet_events_exact demoSheet true demoSheet_wf]
+  decide
 
 end C15
